@@ -177,6 +177,14 @@ ADDED['C14'] += ' Storage::init launches the observer after its last suspension 
 ADDED['C05'] += ' The meta_size of a record is the serialized size of the Meta it carries.'
 ADDED['C17'] += ' Stored child pointers of index nodes are used as absolute file offsets.'
 ADDED['C11'] += ' Semaphore permits and semaphore acquisitions are one node class of the wait-for graph.'
+ADDED['C01'] += ' A leaf of the on-disk index starts at the newest header of a key.'
+ADDED['C09'] += ' A leaf of the on-disk tree starts at the first header of a key.'
+ADDED['C07'] += ' A two-part record is written front to back; no preallocation / truncation call changes the length of a blob file.'
+ADDED['C08'] += ' No client-facing storage body takes the shared storage lock twice in a row.'
+ADDED['C04'] += ' Keys are ordered through the key type in the range filter too.'
+ADDED['C13'] += ' The worker never unwraps the active-blob slot; no deadline stays armed for a deferred dump whose event was taken out.'
+ADDED['C17'] += ' No key- or file-dependent value is cached in a process-wide static.'
+ADDED['C12'] += ' The size recorded as synced counts completed writes only, never the reservation of an append in flight (finding F16).'
 
 for _k, _v in ADDED.items():
     _t = CHECKS[_k]
